@@ -234,3 +234,13 @@ func VerifC03Compose() {
 	v.Assert(len(out1) >= 3, "C03 (setup): the compose rule did not produce one composed builder per plugin")
 	v.Assert(v.DeepEqualNilEmpty(out1, out2), "C03: the builders the compose rule returns depend on map iteration order")
 }
+
+// VerifC03LanguageRefs (C03): the list of output languages handed to the repository templates.
+func VerifC03LanguageRefs() {
+	langs := languages.Languages{"go": nil, "python": nil, "typescript": nil}
+	v.SymOrder(true)
+	r1 := langs.AsLanguageRefs()
+	r2 := langs.AsLanguageRefs()
+	v.SymOrder(false)
+	v.Assert(v.DeepEqual(r1, r2), "C03: the list of languages handed to the repository templates depends on map iteration order")
+}
